@@ -10,6 +10,7 @@ import (
 	"go.mongodb.org/mongo-driver/bson/primitive"
 
 	"github.com/256dpi/lungo/bsonkit"
+	"github.com/256dpi/lungo/mongokit"
 )
 
 const (
@@ -126,4 +127,31 @@ func detachValue(v interface{}) interface{} {
 	default:
 		return v
 	}
+}
+
+// checkProjection applies the projection of a find-one-and-modify call to the
+// documents the call may return. It is used inside the write transaction: an
+// error aborts the write instead of being reported after the commit.
+func checkProjection(projection bsonkit.Doc, res *Result) error {
+	// check projection and result
+	if projection == nil || res == nil {
+		return nil
+	}
+
+	// collect candidates
+	docs := make(bsonkit.List, 0, 3)
+	if res.Upserted != nil {
+		docs = append(docs, res.Upserted)
+	}
+	if len(res.Matched) > 0 {
+		docs = append(docs, res.Matched[0])
+	}
+	if len(res.Modified) > 0 {
+		docs = append(docs, res.Modified[0])
+	}
+
+	// project candidates
+	_, err := mongokit.ProjectList(docs, projection)
+
+	return err
 }
